@@ -593,3 +593,170 @@
             lemma_cong_same_mod(8_347_681 * v[i], w[i]);
         }
     }
+    // ---- the other direction: NTT(NTT^-1(x)) == x (mod q); same pairing of layers, Cooley-Tukey after Gentleman-Sande
+    pub proof fn lemma_ct_gs(xa: int, xb: int, c: int, ua: int, ub: int, z: int, zi: int)
+        requires cong(xa, c * (ua + ub)), cong(xb, c * (zi * (ua - ub))), cong(z * zi, 1),
+        ensures cong(xa + z * xb, 2 * c * ua), cong(xa - z * xb, 2 * c * ub),
+    {
+        let aa = c * (ua + ub); let bb = c * (zi * (ua - ub));
+        lemma_cong_refl(z);
+        lemma_cong_mul(z, z, xb, bb);
+        let d = c * (ua - ub);
+        assert(z * bb == (z * zi) * d) by (nonlinear_arith) requires bb == c * (zi * (ua - ub)), d == c * (ua - ub);
+        lemma_cong_refl(d);
+        lemma_cong_mul(z * zi, 1, d, d);
+        assert(1 * d == d);
+        lemma_cong_trans(z * xb, z * bb, d);
+        lemma_cong_add(xa, aa, z * xb, d);
+        assert(aa + d == 2 * c * ua) by (nonlinear_arith) requires aa == c * (ua + ub), d == c * (ua - ub);
+        assert(aa - d == 2 * c * ub) by (nonlinear_arith) requires aa == c * (ua + ub), d == c * (ua - ub);
+    }
+    pub proof fn lemma_tr_start(u: Seq<int>, x: Seq<int>, c: int, len: int, m: int, mi: int, start: int, lo: int, cnt: int)
+        requires u.len() == 256, x.len() == 256, 1 <= len <= 128, start >= 0, cnt >= 0, 256 - start == 2 * len * cnt,
+            layer_lo(lo), lo <= m + 1, m + cnt == 2 * lo - 1, m + mi == 3 * lo - 1,
+            forall|i: int| start <= i < 256 ==> cong(#[trigger] x[i], c * intt_start_loop(u, len, mi, start)[i]),
+        ensures forall|i: int| start <= i < 256 ==> cong(#[trigger] ntt_start_loop(x, len, m, start)[i], 2 * c * u[i]),
+        decreases cnt
+    {
+        if cnt > 0 {
+            lemma_blocks_step(start, len, cnt);
+            let z = zeta_brv(m + 1); let zi = -zeta_brv(mi - 1);
+            assert(mi - 1 == zpair(m + 1));
+            lemma_zpair_ok(m + 1);
+            assert(cong(z * zi, 1));
+            let u2 = intt_j_loop(u, zi, start, len, start);
+            let x2 = ntt_j_loop(x, z, start, len, start);
+            lemma_intt_j_loop_at(u, zi, start, len, start);
+            lemma_ntt_j_loop_at(x, z, start, len, start);
+            let is = intt_start_loop(u, len, mi, start);
+            let ns = ntt_start_loop(x, len, m, start);
+            assert(is == intt_start_loop(u2, len, mi - 1, start + 2 * len));
+            assert(ns == ntt_start_loop(x2, len, m + 1, start + 2 * len));
+            lemma_intt_start_loop_prefix(u2, len, mi - 1, start + 2 * len, cnt - 1);
+            lemma_ntt_start_loop_prefix(x2, len, m + 1, start + 2 * len, cnt - 1);
+            assert forall|i: int| start + 2 * len <= i < 256 implies cong(#[trigger] x2[i], c * intt_start_loop(u2, len, mi - 1, start + 2 * len)[i]) by {
+                assert(x2[i] == x[i]);
+                assert(cong(x[i], c * is[i]));
+            }
+            lemma_tr_start(u2, x2, c, len, m + 1, mi - 1, start + 2 * len, lo, cnt - 1);
+            assert forall|i: int| start <= i < 256 implies cong(#[trigger] ns[i], 2 * c * u[i]) by {
+                if i < start + len {
+                    let h = i + len;
+                    assert(cong(x[i], c * is[i])); assert(cong(x[h], c * is[h]));
+                    assert(is[i] == u2[i] && is[h] == u2[h]);
+                    assert(u2[i] == u[i] + u[h]); assert(u2[h] == zi * (u[h - len] - u[h]));
+                    lemma_ct_gs(x[i], x[h], c, u[i], u[h], z, zi);
+                    assert(ns[i] == x2[i]); assert(x2[i] == x[i] + z * x[h]);
+                } else if i < start + 2 * len {
+                    let l = i - len;
+                    assert(cong(x[l], c * is[l])); assert(cong(x[i], c * is[i]));
+                    assert(is[l] == u2[l] && is[i] == u2[i]);
+                    assert(u2[l] == u[l] + u[l + len]); assert(u2[i] == zi * (u[i - len] - u[i]));
+                    lemma_ct_gs(x[l], x[i], c, u[l], u[i], z, zi);
+                    assert(ns[i] == x2[i]); assert(x2[i] == x[i - len] - z * x[i]);
+                } else {
+                    assert(cong(ntt_start_loop(x2, len, m + 1, start + 2 * len)[i], 2 * c * u2[i]));
+                    assert(u2[i] == u[i]);
+                }
+            }
+        } else {
+            assert(start == 256) by (nonlinear_arith) requires 256 - start == 2 * len * cnt, cnt == 0;
+        }
+    }
+    // inverse layer 7 - k is undone by forward layer k
+    pub proof fn lemma_tr_layer(u: Seq<int>, x: Seq<int>, c: int, k: int)
+        requires 0 <= k <= 7, u.len() == 256, x.len() == 256,
+            forall|i: int| 0 <= i < 256 ==> cong(#[trigger] x[i], c * intt_start_loop(u, intt_len(7 - k), intt_m0(7 - k), 0)[i]),
+        ensures forall|i: int| 0 <= i < 256 ==> cong(#[trigger] ntt_start_loop(x, ntt_len(k), ntt_m0(k), 0)[i], 2 * c * u[i]),
+            ntt_start_loop(x, ntt_len(k), ntt_m0(k), 0).len() == 256,
+    {
+        let len = ntt_len(k); let lo = ntt_m0(k) + 1;
+        assert(intt_len(7 - k) == len && intt_m0(7 - k) == 2 * lo && layer_lo(lo));
+        assert(256 - 0 == 2 * len * lo) by {
+            if k == 0 { assert(2 * 128 * 1 == 256); } else if k == 1 { assert(2 * 64 * 2 == 256); } else if k == 2 { assert(2 * 32 * 4 == 256); }
+            else if k == 3 { assert(2 * 16 * 8 == 256); } else if k == 4 { assert(2 * 8 * 16 == 256); } else if k == 5 { assert(2 * 4 * 32 == 256); }
+            else if k == 6 { assert(2 * 2 * 64 == 256); } else { assert(2 * 1 * 128 == 256); }
+        }
+        lemma_tr_start(u, x, c, len, ntt_m0(k), 2 * lo, 0, lo, lo);
+        lemma_ntt_start_loop_prefix(x, len, ntt_m0(k), 0, lo);
+    }
+    // the first j inverse layers
+    pub open spec fn intt_prefix(w: Seq<int>, j: int) -> Seq<int>
+        decreases j
+    {
+        if j <= 0 { w } else { intt_start_loop(intt_prefix(w, j - 1), intt_len(j - 1), intt_m0(j - 1), 0) }
+    }
+    pub proof fn lemma_intt_prefix(w: Seq<int>, j: int)
+        requires 0 <= j <= 8, w.len() == 256,
+        ensures intt_layers(w, 0) == intt_layers(intt_prefix(w, j), j), intt_prefix(w, j).len() == 256,
+        decreases j
+    {
+        if j > 0 {
+            lemma_intt_prefix(w, j - 1);
+            let p = intt_prefix(w, j - 1);
+            let len = intt_len(j - 1); let cnt = intt_m0(j - 1) / 2;
+            assert(256 - 0 == 2 * len * cnt) by {
+                if j == 1 { assert(2 * 1 * 128 == 256); } else if j == 2 { assert(2 * 2 * 64 == 256); } else if j == 3 { assert(2 * 4 * 32 == 256); }
+                else if j == 4 { assert(2 * 8 * 16 == 256); } else if j == 5 { assert(2 * 16 * 8 == 256); } else if j == 6 { assert(2 * 32 * 4 == 256); }
+                else if j == 7 { assert(2 * 64 * 2 == 256); } else { assert(2 * 128 * 1 == 256); }
+            }
+            lemma_intt_start_loop_prefix(p, len, intt_m0(j - 1), 0, cnt);
+            assert(intt_layers(p, j - 1) == intt_layers(intt_start_loop(p, len, intt_m0(j - 1), 0), j));
+        }
+    }
+    pub proof fn lemma_tr_layers(y: Seq<int>, c: int, x: Seq<int>, k: int)
+        requires 0 <= k <= 8, x.len() == 256, y.len() == 256,
+            forall|i: int| 0 <= i < 256 ==> cong(#[trigger] y[i], c * intt_prefix(x, 8 - k)[i]),
+        ensures forall|i: int| 0 <= i < 256 ==> cong(#[trigger] ntt_layers(y, k)[i], pw2(8 - k) * c * x[i]),
+        decreases 8 - k
+    {
+        if k < 8 {
+            let j = 7 - k;
+            lemma_intt_prefix(x, j);
+            let p = intt_prefix(x, j);
+            assert(intt_prefix(x, 8 - k) == intt_start_loop(p, intt_len(j), intt_m0(j), 0));
+            lemma_tr_layer(p, y, c, k);
+            let y2 = ntt_start_loop(y, ntt_len(k), ntt_m0(k), 0);
+            assert(ntt_layers(y, k) == ntt_layers(y2, k + 1));
+            assert forall|i: int| 0 <= i < 256 implies cong(#[trigger] y2[i], (2 * c) * intt_prefix(x, 8 - (k + 1))[i]) by {
+                assert(cong(y2[i], 2 * c * p[i]));
+                assert(2 * c * p[i] == (2 * c) * p[i]);
+            }
+            lemma_tr_layers(y2, 2 * c, x, k + 1);
+            assert(pw2(8 - k) == 2 * pw2(7 - k));
+            assert forall|i: int| 0 <= i < 256 implies cong(#[trigger] ntt_layers(y, k)[i], pw2(8 - k) * c * x[i]) by {
+                assert(cong(ntt_layers(y2, k + 1)[i], pw2(7 - k) * (2 * c) * x[i]));
+                assert(pw2(7 - k) * (2 * c) * x[i] == pw2(8 - k) * c * x[i]) by (nonlinear_arith) requires pw2(8 - k) == 2 * pw2(7 - k);
+            }
+        } else {
+            assert forall|i: int| 0 <= i < 256 implies cong(#[trigger] ntt_layers(y, k)[i], pw2(8 - k) * c * x[i]) by {
+                assert(ntt_layers(y, k) == y);
+                assert(intt_prefix(x, 0) == x);
+                assert(pw2(0) == 1);
+                assert(cong(y[i], c * x[i]));
+                assert(pw2(0) * c * x[i] == c * x[i]) by (nonlinear_arith) requires pw2(0) == 1;
+            }
+        }
+    }
+    // FIPS 204 Algorithm 41 inverts Algorithm 42 as well: NTT(NTT^-1(x)) == x (mod q)
+    pub proof fn lemma_ntt_invntt(x: Seq<int>)
+        requires x.len() == 256,
+        ensures spec_invntt(x).len() == 256, forall|i: int| 0 <= i < 256 ==> cong(#[trigger] spec_ntt(spec_invntt(x))[i], x[i]),
+    {
+        reveal(spec_ntt); reveal(spec_invntt);
+        lemma_intt_prefix(x, 8);
+        let v = intt_layers(x, 0);
+        assert(v == intt_prefix(x, 8));
+        let y = spec_invntt(x);
+        assert forall|i: int| 0 <= i < 256 implies cong(#[trigger] y[i], 8_347_681 * intt_prefix(x, 8 - 0)[i]) by {
+            lemma_cong_mod(8_347_681 * v[i]);
+        }
+        lemma_tr_layers(y, 8_347_681, x, 0);
+        assert(pw2(8) == 256) by (compute_only);
+        assert forall|i: int| 0 <= i < 256 implies cong(#[trigger] spec_ntt(y)[i], x[i]) by {
+            assert(cong(ntt_layers(y, 0)[i], pw2(8) * 8_347_681 * x[i]));
+            assert(pw2(8) * 8_347_681 * x[i] - x[i] == (255 * x[i]) * (Q as int)) by (nonlinear_arith) requires pw2(8) == 256;
+            lemma_cong_from(pw2(8) * 8_347_681 * x[i], x[i], 255 * x[i]);
+            lemma_cong_trans(ntt_layers(y, 0)[i], pw2(8) * 8_347_681 * x[i], x[i]);
+        }
+    }
